@@ -4,6 +4,11 @@ import vlib
 PROPS_MODULE = "Q1t.Props.C02"
 
 
+def untag(r):
+    """lines of a run that was not the first execution of its Circuit object carry the tag `again `"""
+    return r[6:] if r.startswith("again ") else r
+
+
 def classify(fl):
     return {"stab-peekall-impossible-value": "D5-stab-peek-all-independent"}.get(fl.get("class"))
 
@@ -20,10 +25,10 @@ SPEC = {
     "drivers": ["drv_c02"],
     "harness_bin": "c02",
     "eq": vlib.hexfloat_eq(1e-9),
-    "spec_check": vlib.spec_via_driver("drv_c02", select=lambda r: r.startswith("shot")),
+    "spec_check": vlib.spec_via_driver("drv_c02", select=lambda r: untag(r).startswith("shot")),
     "classify": classify,
-    "nontrivial": lambda r, a: (r.startswith("step | measure") or r.startswith("step | reset ") or r.startswith("step | cond")
-                                or r.startswith("step | peek") or r.startswith("shot")),
+    "nontrivial": lambda r, a: (lambda r: r.startswith("step | measure") or r.startswith("step | reset ") or r.startswith("step | cond")
+                                or r.startswith("step | peek") or r.startswith("shot"))(untag(r)),
     "rule": "random circuits over all op kinds (gates incl. nested combinators, conditional gates, measure/peek in X/Y/Z, measure_all, "
             "peek_all, reset, reset_all, barrier; <=3 qubits quick / <=4 thorough, <=12 ops, 1..40 shots) plus structured Clifford circuits in which the measured/reset qubit is entangled with several superposed qubits (several X-carrying generator rows), executed by the real Circuit with "
             "the verif trace: (A) every operation is re-executed by the Lean model from the implementation's pre-state with the "
